@@ -144,6 +144,7 @@ func main() {
 	run.Def(M, "misuse", func(w *run.W, a *misuseArgs) { guardLib(w, "after-documented-misuse", "", func() { runMisuse(w, a) }) })
 	run.Def(M, "sweep", runSweep)
 	run.Def(M, "reuse-after-failed-call", runReuse)
+	run.Def(M, "progress", runProgress)
 	M.Gen = generate
 	debug.SetGCPercent(400) // towers allocate tens of MB per path; trade memory (well below 2 GB) for GC time
 	if f := os.Getenv("C20_CPUPROFILE"); f != "" { // diagnostics for harness development only
@@ -307,6 +308,9 @@ func generate(w *run.W) {
 			}
 		}
 	}
+
+	// (h) bounded progress with hostile user unmarshal code
+	genProgress(w, mine)
 
 	// (f) hostile sweep
 	type sweepPlan struct {
